@@ -172,6 +172,38 @@ func checkC13(c *Ctx) {
 			s := ds.Site
 			n++
 			ok := innerKey != "" && errNilOf(ds.Facts, is(innerKey))
+			// the committed block handed to PruneToHeight is the one recorded by this commit: read from the view state
+			// after commitInner ran (or the committed block itself), not a copy taken before
+			{
+				var innerCall ssa.Instruction
+				for _, ic := range callsIn(cm, false, func(cc *ssa.CallCommon) bool { return calleeIs(cc, inner) }) {
+					innerCall = ic
+				}
+				fresh, stale := false, ""
+				if len(s.Common().Args) > 1 {
+					sliceEnterHelpers, sliceProg = funcPkgPath(cm), p
+					backwardSliceOpt(s.Common().Args[1], true, func(x ssa.Value) bool {
+						if x == ssa.Value(cm.Params[1]) {
+							fresh = true
+							return true
+						}
+						call, isCall := x.(*ssa.Call)
+						if !isCall || call.Call.StaticCallee() == nil || call.Call.StaticCallee().Name() != "CommittedBlock" {
+							return false
+						}
+						if call.Parent() == cm && innerCall != nil && !precedes(innerCall, call) {
+							stale = p.InstrPos(call)
+						} else {
+							fresh = true
+						}
+						return true
+					})
+					sliceEnterHelpers, sliceProg = "", nil
+				}
+				c.Check(fresh && stale == "", "C13.8", "Committer.commit: pruning is relative to the block just committed", p.Pos(s.Pos()),
+					"PruneToHeight receives viewStates.CommittedBlock() as read after commitInner (or the committed block itself)",
+					"PruneToHeight receives the committed block as it was before this commit (read at "+stale+"): its parent chain covers none of the views just committed, so every block committed by this call is reported as abandoned")
+			}
 			c.Check(ok, "C13.8", "Committer.commit: pruning follows a successful commit of the chain", p.Pos(s.Pos()),
 				"PruneToHeight(committed, block.View()) is reached only under commitInner(...) == nil",
 				"PruneToHeight is reachable after commitInner failed: nothing up to block.View() was committed, yet the blocks on that chain are reported as abandoned (aborted to their clients) and are committed later")
